@@ -462,15 +462,10 @@ impl<'a> Exec<'a> {
 				return
 			}
 		}
-		// Harness constraint (single-threaded stepping only): Drop enacts up to three more log
-		// files and waits for a cleanup worker when more than 4 logs are dirty; there is no
-		// cleanup worker here, so keep the count low before dropping.
-		if self.db.is_some() && self.counts().3 > 1 {
-			self.stats.probe("clean_before_drop");
-			let _ = self.db().verif_clean_logs();
-			if self.counts().3 > 1 {
-				let _ = self.db().verif_clean_logs();
-			}
+		// (Until fix e41ae0c a drop with more than four dirty logs blocked here for want of a
+		// cleanup worker and the harness cleaned first; now the drop is taken as it comes.)
+		if self.db.is_some() && self.counts().3 > 4 {
+			self.stats.probe("drop_with_more_than_four_dirty_logs");
 		}
 		self.db = None;
 	}
@@ -544,14 +539,13 @@ impl<'a> Exec<'a> {
 	fn apply_to_model(&mut self, tx: &[(u8, TxOp)]) {
 		for (c, op) in tx {
 			let kind = self.col_kinds[*c as usize];
-			let ccfg = self.col_cfgs[*c as usize].clone();
+			let ccfg = &self.col_cfgs[*c as usize];
 			match (&mut self.cur[*c as usize], op) {
 				(ColModel::Kv(m), TxOp::Set(k, _) | TxOp::Del(k) | TxOp::Ref(k)) => {
-					let key = ccfg.keys[*k].clone();
-					m.apply(kind, &key, op, &ccfg);
+					m.apply(kind, &ccfg.keys[*k], op, ccfg);
 				},
 				(ColModel::Kv(m), TxOp::RawRef(key)) => {
-					m.apply(kind, key, op, &ccfg);
+					m.apply(kind, key, op, ccfg);
 				},
 				(ColModel::Tree(_), _) => {
 					crate::treeops::apply_model(self, *c, op);
